@@ -66,6 +66,29 @@ Fixpoint efi_run (fuel : nat) (p : profile) (m : mem) (it : efi_iter) : list str
       end
   end.
 
+(* short histories on ONE iterator object mixing next() and the provided nth(k): an overriding nth must compose with
+   next() and with itself exactly as k+1 calls of next() do.  A history stops at the first panic. *)
+Inductive hop := HNext | HNth (k : N).
+Definition hists (n : N) : list (list hop) :=
+  [ [HNext; HNth 0]; [HNext; HNth 1]; [HNext; HNext; HNth 0]; [HNth 1; HNth 0]; [HNth 0; HNext]; [HNext; HNth n];
+    [HNext; HNth (n - 1)]; [HNth (n - 1); HNext; HNext]; [HNth n; HNext]; [HNth 0; HNth 0; HNth 0] ].
+Fixpoint run_hops {S A : Type} (next : S -> res (option A * S)) (nth : S -> nat -> res (option A * S))
+                  (show : A -> S -> string) (s : S) (ops : list hop) : list string :=
+  match ops with
+  | [] => []
+  | o :: rest =>
+      match (match o with HNext => next s | HNth k => nth s (N.to_nat k) end) with
+      | Val (Some a, s') => ("some " ++ show a s')%string :: run_hops next nth show s' rest
+      | Val (None, s') => "none"%string :: run_hops next nth show s' rest
+      | x => [sRes (fun _ => ""%string) x]
+      end
+  end.
+Definition lines_hists {S A : Type} (key : string) (next : S -> res (option A * S)) (nth : S -> nat -> res (option A * S))
+                       (show : A -> S -> string) (s : S) (n : N) : list string :=
+  snd (fold_left (fun '(i, acc) ops =>
+                    (i + 1, acc ++ [line key (sN i ++ " " ++ String.concat ";" (run_hops next nth show s ops))])%list)
+                 (hists n) (0, [])).
+
 (* nth(k) on a fresh iterator for k around the number of entries, and count() *)
 Definition lines_efi_nth (p : profile) (m : mem) (i : efi_iter) : list string :=
   (map (fun k => line "efi_nth" (sN k ++ " " ++
@@ -84,7 +107,9 @@ Definition lines_efi (p : profile) (m : mem) (t : tref) : list string :=
   let it := efi_memory_areas m t in
   line "efi_mmap" ("areas=" ++ sRes (fun i => "entries=" ++ sN (ei_entries i) ++ " len=" ++ sRes sN (efi_len p i)) it)
   :: match it with
-     | Val i => (efi_run (S (S (N.to_nat (ei_entries i)))) p m i ++ lines_efi_nth p m i)%list
+     | Val i => (efi_run (S (S (N.to_nat (ei_entries i)))) p m i ++ lines_efi_nth p m i
+                 ++ lines_hists "efi_hist" (efi_next p m) (efi_nth p m)
+                      (fun off it' => (sView off 40 ++ " len=" ++ sRes sN (efi_len p it'))%string) i (ei_entries i))%list
      | _ => []
      end.
 
@@ -129,7 +154,11 @@ Definition lines_elf (p : profile) (m : mem) (t : tref) : list string :=
   line "elf" (fields KElfSections m t ["number_of_sections"; "entry_size"; "shndx"]
               ++ " sections=" ++ sRes (fun i => "rem=" ++ sN (el_rem i)) it)
   :: match it with
-     | Val i => (elf_run (S (elf_fuel i)) p m i ++ lines_elf_nth p m i)%list
+     | Val i => (elf_run (S (elf_fuel i)) p m i ++ lines_elf_nth p m i
+                 ++ (if el_rem i <=? 4096 then
+                       lines_hists "elf_hist" (fun it => elf_next (elf_fuel it) p m it) (elf_nth p m)
+                         (fun s it' => (sN (es_inner s) ++ " rem=" ++ sN (el_rem it'))%string) i (el_rem i)
+                     else []))%list
      | _ => []
      end.
 
